@@ -617,9 +617,14 @@ def r_group_helper(ctx: Ctx, rule: str):
             # the receiver, followed through locals and through the parameters of helpers spliced into this function
             rfr, renv, recv = ctx.vals.trace(c.func, c.env, c.ast.func.value)
             P = ctx.eff.paths(f)
-            # (looked up by id in the running registry, or in a view that shows the running registry alone)
+            # (looked up by id in the running registry, or in a view that shows the running registry alone - by subscript, or by
+            # `.get(id)` whose None result is told apart before the cancel)
             ok = isinstance(recv, ast.Subscript) and (ctx.eff.rebase(ctx.eff.paths(rfr).of(recv.value) or "", rfr, renv) == RUN or registry_view(ctx, rfr, renv, recv.value) == {"R"})
             key = recv.slice if isinstance(recv, ast.Subscript) else None
+            if isinstance(recv, ast.Call) and isinstance(recv.func, ast.Attribute) and recv.func.attr == "get" and 1 <= len(recv.args) <= 2 and not recv.keywords \
+                    and (len(recv.args) == 1 or (isinstance(recv.args[1], ast.Constant) and recv.args[1].value is None)) \
+                    and (ctx.eff.rebase(ctx.eff.paths(rfr).of(recv.func.value) or "", rfr, renv) == RUN or registry_view(ctx, rfr, renv, recv.func.value) == {"R"}):
+                ok, key = True, recv.args[0]
             key_ok = False
             if isinstance(key, ast.Name):
                 kfr, kenv, rk = ctx.vals.trace(rfr, renv, key)
@@ -635,6 +640,84 @@ def r_group_helper(ctx: Ctx, rule: str):
                     elif h[0] == "iter":
                         key_ok = expr_role_reg(ctx, f, h[1])
             rep.ob(rule, "the member cancelled is the running task whose id was taken from this group's register", ok and key_ok, node=c)
+        # no member is skipped: from taking an id out of the register to the next iteration every path cancels the task - unless the
+        # look-up found no running task for it (KeyError handler / the None result of `.get`)
+        takes = ctx.nodes(f, lambda n: n.op == "call" and isinstance(n.ast.func, ast.Attribute) and n.ast.func.attr == "pop" and not n.ast.args
+                          and expr_role_reg(ctx, f, n.ast.func.value) and bool(n.loops))
+        sc_ = ctx.an.scope(f)
+
+        def none_branch(t: ast.AST) -> Optional[str]:
+            """the branch of a test on which the looked-up task is known to be missing"""
+            neg = False
+            while isinstance(t, ast.UnaryOp) and isinstance(t.op, ast.Not):
+                neg, t = not neg, t.operand
+            name, lab_ = None, None
+            if isinstance(t, ast.Compare) and len(t.ops) == 1 and isinstance(t.ops[0], (ast.In, ast.NotIn)) \
+                    and (ctx.eff.paths(f).of(t.comparators[0]) == RUN or registry_view(ctx, f, None, t.comparators[0]) == {"R"}):
+                # `task_id not in self._tasks_running`: no running task under that id
+                lab_ = "T" if isinstance(t.ops[0], ast.NotIn) else "F"
+                if neg:
+                    lab_ = "T" if lab_ == "F" else "F"
+                return lab_
+            if isinstance(t, ast.Compare) and len(t.ops) == 1 and isinstance(t.ops[0], (ast.Is, ast.IsNot)) and isinstance(t.left, ast.Name) \
+                    and isinstance(t.comparators[0], ast.Constant) and t.comparators[0].value is None:
+                name, lab_ = t.left.id, ("T" if isinstance(t.ops[0], ast.Is) else "F")
+            elif isinstance(t, ast.Name):
+                name, lab_ = t.id, "F"
+            if name is None:
+                return None
+            hows = sc_.defs.get(name, [])
+            if not (len(hows) == 1 and hows[0][0] in ("assign", "ann")):
+                return None
+            v_ = hows[0][1] if hows[0][0] == "assign" else hows[0][2]
+            if not (isinstance(v_, ast.Call) and isinstance(v_.func, ast.Attribute) and v_.func.attr == "get"):
+                return None
+            if neg:
+                lab_ = "T" if lab_ == "F" else "F"
+            return lab_
+
+        for tk in ctx.distinct_sites(takes):
+            lp = tk.loops[-1]
+            heads = {h for h in g.nodes if h.pred and h.op in ("loophead", "iter") and h.ast is lp} | {t_ for t_ in g.nodes if t_.op == "test" and t_.stmt is lp}
+            copies = [x for x in takes if x.ast is tk.ast]
+
+            def ef(a: Node, b: Node, lab: Label) -> bool:
+                if lab[0] not in NORMAL_KINDS or a in members:
+                    return False
+                if a.op == "test" and lab[0] in ("T", "F") and none_branch(a.ast) == lab[0]:
+                    return False
+                return True
+
+            # a `for x in <display handed in by the caller>` loop (helper given `(task,)`) runs its body at least once: its exit
+            # edge cannot be taken on first arrival - searched over (step, loops entered so far)
+            def nonempty_display(n_: Node) -> bool:
+                if n_.op != "iter" or not isinstance(n_.ast, ast.For):
+                    return False
+                ls_ = ctx.vals.leaves(n_.func, n_.env, n_.ast.iter)
+                return bool(ls_) and all(isinstance(l_[2], (ast.Tuple, ast.List)) and l_[2].elts and not any(isinstance(x_, ast.Starred) for x_ in l_[2].elts) for l_ in ls_)
+
+            forced = {id(n_) for n_ in g.nodes if nonempty_display(n_)}
+            start_ = [(s_, frozenset()) for x in copies for s_, lab in x.succ if lab[0] in NORMAL_KINDS]
+            seen_st, work_st, r_ = set(), list(start_), set()
+            while work_st:
+                a, ent = work_st.pop()
+                if (id(a), ent) in seen_st:
+                    continue
+                seen_st.add((id(a), ent))
+                r_.add(a)
+                for b, lab in a.succ:
+                    if not ef(a, b, lab):
+                        continue
+                    ent2 = ent
+                    if id(a) in forced and lab[0] == "F" and id(a) not in ent:
+                        continue
+                    if id(a) in forced and lab[0] == "T":
+                        ent2 = ent | {id(a)}
+                    work_st.append((b, ent2))
+            skipped = bool(r_ & heads) or g.exit in r_
+            rep.ob(rule, "every id taken from the register is cancelled if its task is running (no member is skipped)", not skipped, node=tk,
+                   detail="" if not skipped else "a path from taking the id to the next iteration passes no cancel although the task was found running: that member of the group survives the group's cancellation")
+        rep.floor(rule, "ids taken from the group register in the member loop", len(ctx.distinct_sites(takes)), 1)
         for m in ctx.distinct_sites(meta):
             t = m.callee.targets[0]
             rep.ob(rule, "the spawners cancelled are those of this group", expr_role(ctx, f, ctx.call_arg(m.ast, t, "group_name")) == "GROUP", node=m)
